@@ -999,6 +999,15 @@ class Unifier:
         return objs.get(result)
 
     def apply_adder(self, obj, t: CallOn):
+        if t.meth.startswith("__extend__:"):
+            # extending a container the constructor left empty installs the given sequence
+            attr = t.meth.split(":", 1)[1]
+            cur = obj["attrs"].get(attr)
+            if cur is None or (isinstance(cur, (ast.List, ast.Tuple)) and not cur.elts):
+                obj["attrs"][attr] = self.rsub(t.args[0])
+            else:
+                obj["attrs"][attr] = ast.Call(func=N("__auto__"), args=[], keywords=[])
+            return
         if t.meth.startswith("__append__:"):
             # direct append to a container attribute of the object under construction
             appends = {t.meth.split(":", 1)[1]: [ast.Name(id="__item__", ctx=ast.Load())]}
